@@ -4,3 +4,4 @@ Import ListNotations.
 Open Scope N_scope.
 Definition K_bytesPerMB : N := 1000000.
 Definition K_contentDeletionPPM : N := 50000.
+Definition K_offerEphemeralType : N := 5.
